@@ -6,6 +6,9 @@
 (* unspents extension.  Terminal states: "done" (a transaction was read),    *)
 (* "fail" (the input ends early or announces an impossible length) and       *)
 (* "unspec" (a marker with a flag other than 1: outside the standard).       *)
+(* Dialect "ltc" (Litecoin): flags 0x08 and 0x09 are known too; bit 3 puts    *)
+(* an MWEB part - here only the single byte 0 - between the witness stacks    *)
+(* and the lock time.                                                        *)
 EXTENDS TxWire
 
 \* ---------------------------------------------------------------- parsing
@@ -19,19 +22,22 @@ pvars == <<pc, rest, ptx, cnt, wi, pf>>
 
 Terminal == {"done", "fail", "unspec"}
 
-PStartState(bytes, allowSegwit) ==
+PStartStateD(bytes, allowSegwit, ltc) ==
   [pc |-> "version", rest |-> bytes,
    ptx |-> [version |-> <<0, 0>>, ins |-> <<>>, outs |-> <<>>, lock |-> <<0, 0>>],
    cnt |-> 0, wi |-> 1,
-   pf |-> [allow |-> allowSegwit, segwit |-> FALSE, canon |-> TRUE, superfluous |-> FALSE,
-           ext |-> "none", unspents |-> <<>>]]
+   pf |-> [allow |-> allowSegwit, ltc |-> ltc, segwit |-> FALSE, mweb |-> FALSE, hogex |-> FALSE,
+           canon |-> TRUE, superfluous |-> FALSE, ext |-> "none", unspents |-> <<>>]]
 \* as an initial predicate and as an action (for specifications that pick their input in a step)
-PInit(bytes, allowSegwit) ==
-  LET s == PStartState(bytes, allowSegwit) IN
+PInitD(bytes, allowSegwit, ltc) ==
+  LET s == PStartStateD(bytes, allowSegwit, ltc) IN
   pc = s.pc /\ rest = s.rest /\ ptx = s.ptx /\ cnt = s.cnt /\ wi = s.wi /\ pf = s.pf
-PStart(bytes, allowSegwit) ==
-  LET s == PStartState(bytes, allowSegwit) IN
+PStartD(bytes, allowSegwit, ltc) ==
+  LET s == PStartStateD(bytes, allowSegwit, ltc) IN
   pc' = s.pc /\ rest' = s.rest /\ ptx' = s.ptx /\ cnt' = s.cnt /\ wi' = s.wi /\ pf' = s.pf
+\* the Bitcoin dialect
+PInit(bytes, allowSegwit) == PInitD(bytes, allowSegwit, FALSE)
+PStart(bytes, allowSegwit) == PStartD(bytes, allowSegwit, FALSE)
 
 Fail == pc' = "fail" /\ UNCHANGED <<rest, ptx, cnt, wi, pf>>
 
@@ -49,13 +55,17 @@ PMarker ==
   /\ pc = "marker"
   /\ IF pf.allow /\ rest # <<>> /\ rest[1][1] = 0
      THEN IF Size(Take(rest, 2)) < 2 THEN Fail
-          ELSE IF ByteAt(Take(rest, 2), 2) = 1
-               THEN /\ rest' = Drop(rest, 2) /\ pf' = [pf EXCEPT !.segwit = TRUE]
+          ELSE LET f == ByteAt(Take(rest, 2), 2) IN
+               IF f = 1 \/ (pf.ltc /\ f \in {8, 9})
+               THEN /\ rest' = Drop(rest, 2)
+                    /\ pf' = [pf EXCEPT !.segwit = f \in {1, 9}, !.mweb = f \in {8, 9}]
                     /\ pc' = "nin" /\ UNCHANGED <<ptx, cnt, wi>>
                ELSE pc' = "unspec" /\ UNCHANGED <<rest, ptx, cnt, wi, pf>>
      ELSE pc' = "nin" /\ UNCHANGED <<rest, ptx, cnt, wi, pf>>
 
-AfterOuts == IF pf.segwit /\ Len(ptx.ins) > 0 THEN "wit" ELSE "lock"
+\* what follows the witness stacks (or the outputs when there are none)
+AfterWit == IF pf.mweb THEN "mweb" ELSE "lock"
+AfterOuts == IF pf.segwit /\ Len(ptx.ins) > 0 THEN "wit" ELSE AfterWit
 
 PCount(here, loop, after) ==
   /\ pc = here
@@ -94,7 +104,7 @@ POut ==
           /\ pc' = IF cnt = 1 THEN AfterOuts ELSE "out"
           /\ UNCHANGED wi
 
-NextStack == IF wi = Len(ptx.ins) THEN "lock" ELSE "wit"
+NextStack == IF wi = Len(ptx.ins) THEN AfterWit ELSE "wit"
 
 PWitCount ==
   /\ pc = "wit"
@@ -115,6 +125,17 @@ PWitItem ==
           /\ pf' = [pf EXCEPT !.canon = @ /\ s.canon]
           /\ IF cnt = 1 THEN pc' = NextStack /\ wi' = wi + 1
                         ELSE pc' = "witem" /\ wi' = wi
+
+\* Litecoin's MWEB part: one byte; 0 = no MWEB transaction attached.  Anything else announces a body that is
+\* not modelled: "unspec".
+PMweb ==
+  /\ pc = "mweb"
+  /\ LET r == ReadFixed(rest, 1) IN
+     IF ~r.ok THEN Fail
+     ELSE IF r.v[1][1] = 0
+          THEN /\ rest' = r.rest /\ pf' = [pf EXCEPT !.hogex = TRUE]
+               /\ pc' = "lock" /\ UNCHANGED <<ptx, cnt, wi>>
+          ELSE pc' = "unspec" /\ UNCHANGED <<rest, ptx, cnt, wi, pf>>
 
 \* after the lock time the transaction is complete; whatever follows is the unspents extension
 PLock ==
@@ -145,7 +166,7 @@ PExt ==
           /\ UNCHANGED <<ptx, wi>>
 
 PNext == \/ PVersion \/ PMarker \/ PCountIn \/ PIn \/ PCountOut \/ POut
-         \/ PWitCount \/ PWitItem \/ PLock \/ PExt
+         \/ PWitCount \/ PWitItem \/ PMweb \/ PLock \/ PExt
 
 \* the bytes were in the standard form the property speaks about
 Standard == pc = "done" /\ pf.canon /\ ~pf.superfluous /\ pf.ext # "bad"
